@@ -39,10 +39,11 @@ type Act struct {
 }
 
 type Case struct {
-	Dotu    bool   `json:"dotu"`
-	Auth    bool   `json:"auth"`
-	Msize   uint32 `json:"msize"`
-	Actions []Act  `json:"actions"`
+	Dotu     bool   `json:"dotu"`
+	Auth     bool   `json:"auth"`
+	Msize    uint32 `json:"msize"`              // msize the client asks for
+	SrvMsize uint32 `json:"srvmsize,omitempty"` // the server's own msize (default 8192)
+	Actions  []Act  `json:"actions"`
 }
 
 func (a *Act) msg(seq int) *ref9p.Msg {
@@ -76,7 +77,13 @@ func (a *Act) msg(seq int) *ref9p.Msg {
 }
 
 func newSession(c *Case, name string) (*srvh.Session, error) {
-	sv := script.NewServer(script.Config{Msize: c.Msize, Dotu: true, Auth: c.Auth})
+	// the server's own limit is larger than what the client negotiates: the
+	// rules are about the negotiated msize of the connection
+	srvMsize := uint32(8192)
+	if c.SrvMsize != 0 {
+		srvMsize = c.SrvMsize
+	}
+	sv := script.NewServer(script.Config{Msize: srvMsize, Dotu: true, Auth: c.Auth})
 	sh := srvh.NewShared(sv, c.Auth)
 	s, err := srvh.Open(sh, name, c.Dotu, c.Msize)
 	if err != nil {
@@ -323,6 +330,7 @@ func genAct(t *rapid.T, msize uint32) Act {
 func TestPropHistories(t *testing.T) {
 	hx.Check(t, "histories", hx.N(800, 8000), func(t *rapid.T) {
 		c := &Case{Dotu: rapid.Bool().Draw(t, "dotu"), Auth: rapid.Bool().Draw(t, "auth"), Msize: rapid.SampledFrom([]uint32{128, 256, 1024}).Draw(t, "msize")}
+		c.SrvMsize = rapid.SampledFrom([]uint32{0, 0, c.Msize, 65536}).Draw(t, "srvmsize")
 		n := rapid.IntRange(5, 40).Draw(t, "n")
 		if rapid.IntRange(0, 9).Draw(t, "prime") > 0 {
 			c.Actions = append(c.Actions, Act{Kind: "attach", Fid: 0, Afid: ref9p.NOFID, User: rapid.SampledFrom([]string{"alice", "bob"}).Draw(t, "u0")})
